@@ -134,7 +134,7 @@ Section Concrete.
     destruct (find1 (c_denom_idx s) (cm_denom m)) as [id'|]; [|discriminate].
     destruct id' as [|i0 i1]; [discriminate|].
     destruct (find1 (c_pairs s) (i0 :: i1)) as [p'|] eqn:Ep; [|discriminate].
-    destruct (cp_enabled p'); cbn [negb] in H; [|discriminate].
+    destruct (cp_enabled p') eqn:Een; cbn [negb] in H; [|discriminate].
     destruct (mem1 (cm_receiver m) (c_blocked s)) eqn:Eb; [discriminate|].
     destruct (negb _ && _); [discriminate|]. inversion H; subst. repeat split; auto.
   Qed.
@@ -160,46 +160,49 @@ Section Concrete.
       destruct (escrow MODULE s m) as [s1| |] eqn:Ee; cbn [obind] in H; try discriminate.
       destruct (escrow_spec _ _ _ Hsm Ee) as (Hp & Hh & Hd & Hmod & Hrest & Hsup & Htok & Htot & Hreg & Hcfg).
       match type of H with (if ?c then _ else _) = _ => destruct c eqn:E3; [discriminate|] end.
-      inversion H; subst s'; clear H.
-      constructor; try assumption.
-      + cbn [c_bank with_funds]. exact Hd.
-      + unfold Ics20.tok. cbn [c_tokens with_funds]. rewrite get2_same. rewrite Htok. reflexivity.
-      + left. split; [reflexivity|]. unfold Ics20.tok, Ics20.bal in *. cbn [c_bank c_supply c_tok_total c_tokens with_funds].
-        repeat split.
+      inversion H; subst s'; clear H E3.
+      unfold Ics20.bal, Ics20.tok in *.
+      constructor; unfold Ics20.bal, Ics20.tok; cbn [c_bank c_supply c_tokens c_tok_total with_funds];
+        rewrite ?Htok, ?Htot, ?Hsup.
+      + exact Hp.
+      + exact Hh.
+      + exact Hd.
+      + keys.
+      + left. split; [exact Eo|]. cbn [c_bank c_supply c_tokens c_tok_total with_funds].
+        rewrite ?Htok, ?Htot, ?Hsup. repeat split.
         * exact Hmod.
-        * exact Hsup.
-        * rewrite get1_same, Htot. reflexivity.
-        * rewrite get2_other by (intros X; inversion X; contradiction). rewrite Htok. reflexivity.
-      + intros c h H1 H2. unfold Ics20.tok. cbn [c_tokens with_funds].
-        rewrite get2_other by (intros X; apply H1; symmetry; exact X). rewrite Htok. reflexivity.
-      + intros c Hc. cbn [c_tok_total with_funds]. rewrite get1_other by (intros X; apply Hc; symmetry; exact X).
-        rewrite Htot. reflexivity.
+        * keys.
+        * keys.
+      + exact Hrest.
+      + intros c h H1 H2. keys.
+      + intros c Hc. keys.
+      + exact Hreg.
+      + exact Hcfg.
     - (* external contract *)
       unfold convert_native_erc20 in H. cbn [obind] in H.
       destruct (escrow MODULE s m) as [s1| |] eqn:Ee; cbn [obind] in H; try discriminate.
       destruct (escrow_spec _ _ _ Hsm Ee) as (Hp & Hh & Hd & Hmod & Hrest & Hsup & Htok & Htot & Hreg & Hcfg).
       match type of H with (if ?c then _ else _) = _ => destruct c eqn:E3; [discriminate|] end.
       match type of H with (if ?c then _ else _) = _ => destruct c eqn:E4; [discriminate|] end.
-      inversion H; subst s'; clear H.
-      assert (Hk : (cp_erc20 p, MODULE) <> (cp_erc20 p, cm_receiver m)) by (intros X; inversion X; auto).
-      assert (Hk2 : (MODULE, cm_denom m) <> (cm_sender m, cm_denom m)) by (intros X; inversion X; auto).
-      constructor; try assumption.
-      + unfold Ics20.bal in *. cbn [c_bank with_funds]. rewrite get2_other by exact Hk2. exact Hd.
-      + unfold Ics20.tok. cbn [c_tokens with_funds]. rewrite get2_same. rewrite get2_other by exact Hk.
-        rewrite Htok. reflexivity.
-      + right. split; [reflexivity|]. unfold Ics20.tok, Ics20.bal in *. cbn [c_bank c_supply c_tok_total c_tokens with_funds].
-        repeat split.
-        * rewrite get2_same. rewrite Hmod. lia.
-        * rewrite get1_same, Hsup. reflexivity.
-        * intros d' Hd'. rewrite get1_other by (intros X; apply Hd'; symmetry; exact X). rewrite Hsup. reflexivity.
-        * exact Htot.
-        * rewrite get2_other by (intros X; apply Hk; symmetry; exact X). rewrite get2_same. rewrite Htok. reflexivity.
-      + intros a d H1 H2. unfold Ics20.bal in *. cbn [c_bank with_funds].
-        rewrite get2_other by (intros X; apply H2; symmetry; exact X). apply Hrest; assumption.
-      + intros c h H1 H2. unfold Ics20.tok. cbn [c_tokens with_funds].
-        rewrite get2_other by (intros X; apply H1; symmetry; exact X).
-        rewrite get2_other by (intros X; apply H2; symmetry; exact X). rewrite Htok. reflexivity.
-      + intros c Hc. cbn [c_tok_total with_funds]. rewrite Htot. reflexivity.
+      inversion H; subst s'; clear H E3 E4.
+      unfold Ics20.bal, Ics20.tok in *.
+      constructor; unfold Ics20.bal, Ics20.tok; cbn [c_bank c_supply c_tokens c_tok_total with_funds];
+        rewrite ?Htok, ?Htot, ?Hsup.
+      + exact Hp.
+      + exact Hh.
+      + keys.
+      + keys.
+      + right. split; [exact Eo|]. cbn [c_bank c_supply c_tokens c_tok_total with_funds].
+        rewrite ?Htok, ?Htot, ?Hsup. repeat split.
+        * keys.
+        * keys.
+        * intros d' Hd'. keys.
+        * keys.
+      + intros a d H1 H2. keys. apply Hrest; assumption.
+      + intros c h H1 H2. keys.
+      + intros c Hc. reflexivity.
+      + exact Hreg.
+      + exact Hcfg.
   Qed.
 
   Lemma delete_pair_funds : forall s id p, same_funds s (delete_pair s id p) /\ same_config s (delete_pair s id p).
@@ -264,9 +267,10 @@ Section Concrete.
         mem1 (cp_erc20 p) (c_code st1) = false ->
         st2 = delete_pair st1 id p -> same_funds st1 st2 -> same_config st1 st2 ->
         after_middleware pkt st1 st2 hp
-    | AM_converted : forall d amt id p,      (* full conversion of exactly the packet amount *)
+    | AM_converted : forall d amt id p,      (* full conversion of exactly the packet amount, credited to the receiver *)
         hp = Some HConverted ->
         decode (pk_data pkt) = Some d -> parse_int (fd_amount d) = Some amt ->
+        cm_receiver (hmsg pkt d amt) = cm_sender (hmsg pkt d amt) ->   (* the receiver's own (20-byte) address *)
         minting_enabled st1 (hmsg pkt d amt) = Some (id, p) ->
         mem1 (cp_erc20 p) (c_code st1) = true ->
         full_conversion st1 (hmsg pkt d amt) p st2 ->
@@ -292,7 +296,7 @@ Section Concrete.
       after_middleware pkt st1 st2 hp.
     Proof.
       intros st pkt st1 a st2 oa hp Hlen Et Hblk Hm.
-      destruct (middleware_state _ _ _ _ _ _ _ _ _ _ _ _ _ _ _ Et Hm) as [[E Hp]|(Hp & Hs & d & amt & Ed & Ea & Hpos & Hreg & Hc)].
+      destruct (middleware_state _ _ _ _ _ _ _ _ _ _ _ _ _ _ _ Et Hm) as [[E Hp]|(Hp & Hs & d & amt & Ed & Ea & Hpos & Hl20 & Hreg & Hc)].
       - apply AM_untouched; assumption.
       - assert (Hc' := Hc). unfold Ics20.convert_coin in Hc'.
         destruct (minting_enabled st1 (hmsg pkt d amt)) as [[id p]|] eqn:Eme; [|discriminate]. clear Hc'.
@@ -302,7 +306,8 @@ Section Concrete.
         destruct Hcases as [[Hcode Hdel]|[Hcode Hfull]].
         + destruct (delete_pair_funds st1 id p) as [Hf Hcf]. rewrite <- Hdel in Hf, Hcf.
           eapply AM_pair_removed; eassumption.
-        + eapply AM_converted; eassumption.
+        + eapply AM_converted; try eassumption.
+          unfold hook_msg. cbn [cm_sender cm_receiver]. apply evm_addr_20. exact Hl20.
     Qed.
 
     (** corollary in the words of the property: the receiver's coins of ANY denomination other than the hook's are
@@ -316,21 +321,79 @@ Section Concrete.
       bal st2 acct g = bal st1 acct g.
     Proof.
       intros st pkt st1 a st2 oa hp acct g Hlen Et Hblk Hm Hg.
-      destruct (conversion_atomic _ _ _ _ _ _ _ Hlen Et Hblk Hm) as [E _|d amt id p _ Ed Ea _ _ _ Hf _|d amt id p _ Ed Ea _ _ Hfull].
+      destruct (conversion_atomic _ _ _ _ _ _ _ Hlen Et Hblk Hm) as [E _|d amt id p _ Ed Ea _ _ _ Hf _|d amt id p _ Ed Ea _ _ _ Hfull].
       - subst. reflexivity.
       - destruct Hf as [Hb _]. unfold Ics20.bal. rewrite Hb. reflexivity.
       - apply (fc_bank_rest _ _ _ _ Hfull); intros X; inversion X; subst; eapply Hg; eauto.
     Qed.
 
-    (** the tokens of a full conversion are credited to the receiver itself exactly when its address has 20 bytes *)
+    (** the code before e0a53b0 credited common.BytesToAddress(receiver): the receiver itself exactly when its
+        address has 20 bytes *)
     Lemma credited_address : forall pkt d amt r,
       from_bech32 (fd_receiver d) = Some r ->
       cm_sender (hmsg pkt d amt) = r /\ cm_receiver (hmsg pkt d amt) = evm_addr r /\
       (length r = 20%nat -> cm_receiver (hmsg pkt d amt) = r) /\
       (length r <> 20%nat -> cm_receiver (hmsg pkt d amt) <> r).
     Proof.
-      intros pkt d amt r E. unfold hook_msg. rewrite E. cbn [cm_sender cm_receiver].
+      intros pkt d amt r E. unfold hook_msg, hook_receiver. rewrite E. cbn [cm_sender cm_receiver].
       repeat split; [apply evm_addr_20|apply evm_addr_other].
     Qed.
   End Stack.
 End Concrete.
+
+(** * Monitor soundness: the executable atomicity check of Model/Ics20Check.v (applied by every run to the
+    IMPLEMENTATION's observed balances) accepts every step of the model. *)
+From Teleport Require Import Model.Ics20Check.
+
+Section Monitor.
+  Variable MODULE : bytes.
+
+  (** the projection the harness takes of a state: receiver [r], hook denomination [v], credited denomination [g],
+      contract [c]; [rest] stands for the digest of everything else *)
+  Definition proj (r v g c rest : bytes) (s : cstate) : snap :=
+    {| sn_recv_voucher := bal s r v; sn_recv_got := bal s r g; sn_mod_voucher := bal s MODULE v;
+       sn_supply := get1 (c_supply s) v; sn_tokens := tok s c r; sn_mod_tokens := tok s c MODULE;
+       sn_tok_supply := get1 (c_tok_total s) c;
+       sn_indexed := c_is_registered s v;
+       sn_pair := match find1 (c_denom_idx s) v with
+                  | Some id => match find1 (c_pairs s) id with Some _ => true | None => false end
+                  | None => false end;
+       sn_rest := rest |}.
+
+  Lemma snap_funds_eqb_same : forall r v g c rest s s',
+    same_funds s s' -> snap_funds_eqb (proj r v g c rest s) (proj r v g c rest s') = true.
+  Proof.
+    intros r v g c rest s s' (Hb & Hs & Ht & Htt). unfold snap_funds_eqb, proj, bal, tok. cbn.
+    rewrite Hb, Hs, Ht, Htt, !Z.eqb_refl, bytes_eqb_refl. reflexivity.
+  Qed.
+
+  Theorem monitor_sound : forall sha256 decode parse_int from_bech32 pkt st1 st2 hp g rest,
+    after_middleware MODULE sha256 decode parse_int from_bech32 pkt st1 st2 hp ->
+    forall d amt, decode (pk_data pkt) = Some d -> parse_int (fd_amount d) = Some amt ->
+    let m := hook_msg sha256 from_bech32 pkt d amt in
+    cm_sender m <> MODULE ->
+    forall owner c,
+      (forall id p, minting_enabled st1 m = Some (id, p) -> cp_owner p = owner /\ cp_erc20 p = c) ->
+      let b := proj (cm_sender m) (cm_denom m) g c rest st1 in
+      let s := proj (cm_sender m) (cm_denom m) g c rest st2 in
+      snap_funds_eqb b s || full_conversion_obs owner false amt b s = true.
+  Proof.
+    intros sha256 decode parse_int from_bech32 pkt st1 st2 hp g rest Ham d amt Ed Ea m Hsm owner c Hown b s.
+    destruct Ham as [E _|d' amt' id p _ Ed' Ea' _ _ _ Hf _|d' amt' id p _ Ed' Ea' Hrs Hme _ Hfull].
+    - subst st2. subst b s. rewrite snap_funds_eqb_same; [reflexivity|]. unfold same_funds. tauto.
+    - subst b s. rewrite snap_funds_eqb_same; [reflexivity|]. destruct Hf as (A & B & C & D). unfold same_funds. auto.
+    - rewrite Ed in Ed'. inversion Ed'; subst d'. rewrite Ea in Ea'. inversion Ea'; subst amt'.
+      fold m in Hrs, Hme, Hfull. destruct (Hown _ _ Hme) as [Ho Hc]. subst owner c.
+      apply orb_true_iff. right.
+      destruct Hfull as [Hpos Hheld Hdeb Hcred Howner Hbrest Htrest Httrest (R1 & R2 & R3) Hcfg].
+      unfold full_conversion_obs. subst b s. unfold proj. cbn [sn_rest sn_indexed sn_pair sn_recv_voucher sn_tokens
+        sn_mod_voucher sn_supply sn_mod_tokens sn_tok_supply].
+      unfold c_is_registered. rewrite R1, R3, bytes_eqb_refl, !Bool.eqb_reflx. cbn [andb].
+      replace (0 <? amt) with true by (symmetry; apply Z.ltb_lt; exact Hpos).
+      cbn [cm_amount m hook_msg] in *. rewrite Hrs in Hcred.
+      rewrite Hdeb, Hcred, !Z.eqb_refl. cbn [andb].
+      destruct Howner as [(Ho & H1 & H2 & H3 & H4)|(Ho & H1 & H2 & _ & H3 & H4)]; rewrite Ho.
+      + rewrite H1, H2, H3, H4, !Z.eqb_refl. reflexivity.
+      + rewrite H1, H2, H3, H4, !Z.eqb_refl. reflexivity.
+  Qed.
+End Monitor.
